@@ -320,9 +320,75 @@ def bounded(tier, seed):
         if bad:
             violations.append(dict(key='%s then connected reads' % name, observed=bad + ' ' + repr(got)[:100],
                                    required='reply service 0x%02x, then one matching reply per connected request' % rpy_svc))
+    # a routing gateway: requests whose route path matches a configured route are forwarded to the target; each still gets its own reply,
+    # also after a forwarded request that the target answered too late (non-zero status, session ends)
+    import time as _time
+    from cpppo.server.enip import ucmm as _ucmm
+
+    class Gateway(_ucmm.UCMM):
+        route = {}
+    delay = cpppo.dotdict(value=0.0)
+    ev += 1
+    distinct.add(('gateway',))
+    bad = None
+    try:
+        with netsim.Server({'A': ('INT', 10), 'B': ('INT', 10)}, UCMM_class=Gateway, delay=delay) as srv:
+            from cpppo.server.enip import logix as _logix
+            gw = getattr(_logix.setup, 'ucmm', None)
+            if gw is None or not isinstance(gw, Gateway):
+                raise RuntimeError('the simulator did not instantiate the configured UCMM class')
+            gw.route = {'1/1': ('127.0.0.1', srv.port)}          # the target is this same simulator (known only once it listens)
+            routed = dict(route_path=[{'port': 1, 'link': 1}], send_path='@6/1', priority_time_tick=5, timeout_ticks=10)      # 320 ms
+
+            def transact(conn, method, **kw):
+                kw.update(routed)
+                with conn:
+                    rq = getattr(conn, method)(timeout=4.0, **kw)
+                    rsp, _ = client.await_response(conn, timeout=4.0)
+                return rq, rsp
+            inner = lambda d: d.enip.CIP.send_data.CPF.item[1].unconnected_send.request
+            conn = client.connector(host='127.0.0.1', port=srv.port, timeout=4.0)
+            with conn:
+                for tg, val in (('A[0]', 111), ('B[0]', 222)):
+                    conn.write(tg, data=[val], tag_type=0xc3, elements=1, offset=None, timeout=4.0)
+                    rsp, _ = client.await_response(conn, timeout=4.0)
+            rq, rsp = transact(conn, 'read', path='A[0]', elements=1, offset=None, sender_context=b'one')
+            if not rsp or rsp.enip.status != 0 or inner(rsp).get('read_tag.data') != [111]:
+                bad = 'routed read of A[0]: %r' % (rsp and rsp.enip.status,)
+            else:
+                delay.value = 0.75
+                rq, rsp = transact(conn, 'read', path='A[0]', elements=1, offset=None, sender_context=b'two')
+                delay.value = 0.0
+                if not rsp or rsp.enip.status == 0:
+                    bad = 'a routed request the target answers after its timeout got status 0'
+                conn.close()
+                _time.sleep(1.0)
+                if not bad:
+                    conn = client.connector(host='127.0.0.1', port=srv.port, timeout=4.0)
+                    for ctx, method, kw in ((b'three', 'write', dict(path='B[0]', data=[333], tag_type=0xc3, elements=1, offset=None)),
+                                            (b'four', 'read', dict(path='B[0]', elements=1, offset=None))):
+                        rq, rsp = transact(conn, method, sender_context=ctx, **kw)
+                        if not rsp or 'enip' not in rsp or rsp.enip.status != 0:
+                            bad = '%r: no reply / status %r' % (ctx, rsp and rsp.get('enip.status'))
+                            break
+                        if client.parse_context(rsp.enip.sender_context.input) != ctx:
+                            bad = '%r: reply carries sender context %r' % (ctx, client.parse_context(rsp.enip.sender_context.input))
+                            break
+                        if inner(rsp).service != (rq.service | 0x80):
+                            bad = '%r: request service 0x%02x answered by reply service 0x%02x' % (ctx, rq.service, inner(rsp).service)
+                            break
+                        if method == 'read' and inner(rsp).get('read_tag.data') != [333]:
+                            bad = '%r: read of B[0] returned %r after writing 333' % (ctx, inner(rsp).get('read_tag.data'))
+                            break
+                    conn.close()
+    except Exception as e:
+        bad = 'raised %s: %s' % (type(e).__name__, str(e)[:160])
+    if bad:
+        violations.append(dict(key='gateway: routed read, late routed read, new session routed write + read', observed=bad,
+                               required='every forwarded request is answered by its own reply (service | 0x80, its sender context, its data)'))
     return dict(evaluations=ev, distinct_nontrivial=len(distinct), distinct_keys=distinct_keys(distinct),
                 rule='(a) seeded operation lists (valid, out-of-range, wrong type mixed) through the real server over TCP: synchronous vs pipelined '
                      'depth 3/10 vs bundled: one result per operation, same order, same statuses/values; (b) hand-encoded SendRRData frames (reference '
                      'encoder written from the layout tables), N requests written before any reply is read: N replies in order, same sender context, '
-                     'session handle, service | 0x80; Register Session handle != 0; (c) List Services / Identity / Interfaces / Register each followed by a Read Tag: two replies in order; Unregister: no reply, session ends; (d) unroutable requests get a non-zero encapsulation status; (e) connected sessions: a small (500 byte) and a Large (4000 byte) Forward Open each get the matching reply service, three connected Read Tags each get their reply in order; distinct = distinct (ops, depth, multiple), N, commands',
+                     'session handle, service | 0x80; Register Session handle != 0; (c) List Services / Identity / Interfaces / Register each followed by a Read Tag: two replies in order; Unregister: no reply, session ends; (d) unroutable requests get a non-zero encapsulation status; (e) connected sessions: a small (500 byte) and a Large (4000 byte) Forward Open each get the matching reply service, three connected Read Tags each get their reply in order; (f) a routing gateway (UCMM route 1/1 -> a target simulator): routed read, a routed read answered later than its Unconnected Send timeout (non-zero status), then on a new session a routed write and read each answered by its own reply; distinct = distinct (ops, depth, multiple), N, commands',
                 exhaustive=False, samples=samples, violations=violations[:20], seed=seed)
